@@ -274,7 +274,13 @@ impl Ctx {
                 m.insert("panic_message".into(), json!(msg));
                 m.insert("panic_location".into(), json!(loc));
             }
-            self.finding(index, "panic", &short_loc(&loc), note_class(note), d);
+            if let Some(rest) = msg.strip_prefix("VERIF-MONITOR:") {
+                // raised by one of the harness's own monitors (not a library panic): class:description
+                let class = rest.split(':').next().unwrap_or("monitor").to_string();
+                self.finding(index, &class, "-", note_class(note), d);
+            } else {
+                self.finding(index, "panic", &short_loc(&loc), note_class(note), d);
+            }
         }
     }
 
